@@ -3,6 +3,7 @@
 import json, sys
 pid, wt = sys.argv[1], sys.argv[2]
 cnote = sys.argv[3] if len(sys.argv) > 3 else ""
+round2 = sys.argv[4] if len(sys.argv) > 4 else ""
 for l in open("/verif/properties.jsonl"):
     p = json.loads(l)
     if p["id"] == pid:
@@ -10,4 +11,4 @@ for l in open("/verif/properties.jsonl"):
 t = open("/verif/tools/mutant_prompt.txt").read()
 print(t.replace("{WT}", wt).replace("{PID}", pid).replace("{TITLE}", p["title"])
        .replace("{STATEMENT}", p["statement"]).replace("{QUANT}", p["quantifier"]["text"])
-       .replace("{FILES}", ", ".join(p["anchors"]["files"])).replace("{CNOTE}", cnote))
+       .replace("{FILES}", ", ".join(p["anchors"]["files"])).replace("{CNOTE}", cnote).replace("{ROUND2}", round2))
